@@ -25,7 +25,7 @@ ERROR awkward_ListArray_getitem_next_range(
       awkward_regularize_rangeslice(&regular_start, &regular_stop, step > 0,
                                     start != kSliceNone, stop != kSliceNone,
                                     length);
-      for (int64_t j = regular_start;  j < regular_stop;  j += step) {
+      for (int64_t j = regular_start;  j < regular_stop;  j = (regular_stop - j > step ? j + step : regular_stop)) {
         tocarry[k] = fromstarts[i] + j;
         k++;
       }
@@ -40,7 +40,7 @@ ERROR awkward_ListArray_getitem_next_range(
       awkward_regularize_rangeslice(&regular_start, &regular_stop, step > 0,
                                     start != kSliceNone, stop != kSliceNone,
                                     length);
-      for (int64_t j = regular_start;  j > regular_stop;  j += step) {
+      for (int64_t j = regular_start;  j > regular_stop;  j = (regular_stop - j < step ? j + step : regular_stop)) {
         tocarry[k] = fromstarts[i] + j;
         k++;
       }
